@@ -355,12 +355,12 @@ func cacheRace(o *vh.Opts, res *vh.Result) {
 		}
 		v0, v2 := int64(b0.States[0].ID), int64(b2.States[0].ID)
 		inDecode, release := make(chan struct{}), make(chan struct{})
-		var once sync.Once
-		hook := func() {
-			once.Do(func() {
+		var first atomic.Bool
+		hook := func() { // only the first decode (reader 1, inside the permanent database) is held
+			if first.CompareAndSwap(false, true) {
 				close(inDecode)
 				<-release
-			})
+			}
 		}
 		chain.DecodeHook.Store(&hook)
 		got1 := make(chan int64, 1)
